@@ -53,11 +53,23 @@ def classes_for(graph, policy, rec=None):
             H.combine("pc", ("pa", "pb"), ("va", "vb"), save_when=sw["pc"], rec=rec, rechunk_on_save=False)]
 
 
+def fe_configs(graph):
+    """Frontend configurations of the multi-frontend family: read-only, take_only and exclude filters on two data directories."""
+    ts = GRAPHS[graph]["types"]
+    a, b, z = ts[0], ts[1], ts[-1]
+    rw = dict(ro=False, only=set(), excl=set())
+    return [[rw, rw], [dict(rw, ro=True), rw], [rw, dict(rw, ro=True)],
+            [dict(rw, excl={b}), dict(rw, only={b})], [dict(ro=True, only={a}, excl=set()), dict(rw, excl={a})],
+            [dict(rw, only={z}), dict(rw, ro=True)], [dict(rw, excl={a, z}), dict(rw, excl={b})]]
+
+
 def mc_defs(graph, policy, writable):
     g = GRAPHS[graph]
     f = lambda d: "(" + " @@ ".join(f'"{k}" :> {V.to_tla(v)}' for k, v in d.items()) + ")"   # noqa: E731
+    fe = "{" + ", ".join("<<" + ", ".join(f"[ro |-> {V.to_tla(x['ro'])}, only |-> {V.to_tla(x['only'])}, excl |-> {V.to_tla(x['excl'])}]"
+                                          for x in cfg) + ">>" for cfg in fe_configs(graph)) + "}"
     return (f"TypesDef == {V.to_tla(set(g['types']))}\nPluginDef == {f(g['plugin'])}\n"
-            f"DepsDef == {f({k: tuple(v) for k, v in g['deps'].items()})}\nSaveDef == {f(policy)}\n")
+            f"DepsDef == {f({k: tuple(v) for k, v in g['deps'].items()})}\nSaveDef == {f(policy)}\nFEDef == {fe}\n")
 
 
 _TEMPLATE = {}
@@ -168,6 +180,66 @@ def execute(arg):
             shutil.rmtree(d2, ignore_errors=True)
 
 
+def execute_fe(arg):
+    """One case of the multi-frontend family: two data directories with read-only / take_only / exclude filters."""
+    graph, policy, case, tpl = arg
+    dirs = [tempfile.mkdtemp(prefix="verif_c11f_") for _ in case["fe"]]
+    res = dict(case=case, bad=[])
+    try:
+        for d, has in zip(dirs, case["has"]):
+            for name in os.listdir(tpl):
+                if len(name.split("-")) == 3 and name.split("-")[1] in has:
+                    shutil.copytree(os.path.join(tpl, name), os.path.join(d, name))
+
+        def ctx(rec=None):
+            storage = [strax.DataDirectory(d, readonly=bool(f["ro"]), take_only=tuple(f["only"]), exclude=tuple(f["excl"]))
+                       for d, f in zip(dirs, case["fe"])]
+            return strax.Context(storage=storage, register=classes_for(graph, policy, rec=rec), allow_multiprocess=False)
+
+        def where(path):
+            return next((i + 1 for i, d in enumerate(dirs) if str(path).startswith(d)), 0)
+        origin = case["origin"] if isinstance(case["origin"], dict) else {}
+        exp = dict(compute=sorted(case["compute"]), load=sorted(case["load"]), origin={k: int(v) for k, v in origin.items()},
+                   savers=[sorted(x) for x in case["saves"]])
+        st = ctx()
+        with warnings.catch_warnings():
+            warnings.simplefilter("ignore")
+            try:
+                comp = st.get_components("0", targets=(case["target"],), save=tuple(case["save"]))
+                got = dict(compute=sorted(comp.plugins), load=sorted(comp.loaders),
+                           origin={k: st.storage.index(v.func.__self__) + 1 for k, v in comp.loaders.items()},
+                           savers=[sorted(k for k, v in comp.savers.items() if any(where(s.tempdirname) == f + 1 for s in v))
+                                   for f in range(len(dirs))])
+            except Exception as e:  # noqa
+                got = dict(err=f"{type(e).__name__}: {e}"[:150])
+        for d in dirs:
+            for x in os.listdir(d):
+                if x.endswith("_temp"):
+                    shutil.rmtree(os.path.join(d, x))
+        if got != exp:
+            res["bad"].append(f"get_components gives {got}, definition gives {exp}")
+        rec = H.Recorder()
+        st = ctx(rec)
+        before = [stored_types(d) for d in dirs]
+        try:
+            with warnings.catch_warnings():
+                warnings.simplefilter("ignore")
+                st.get_array("0", case["target"], save=tuple(case["save"]), progress_bar=False)
+            ran = sorted({GRAPHS[graph]["plugin"][t] for t in {c[0] for c in rec.calls}})
+            if ran != sorted(case["run"]):
+                res["bad"].append(f"plugins that computed {ran}, expected {sorted(case['run'])}")
+            for f, d in enumerate(dirs):
+                new = stored_types(d) - before[f]
+                if new != set(case["saves"][f]):
+                    res["bad"].append(f"frontend {f + 1} ({case['fe'][f]}) newly stored {sorted(new)}, expected {sorted(case['saves'][f])}")
+        except Exception as e:  # noqa
+            res["bad"].append(f"the run raised {type(e).__name__}: {str(e)[:100]}")
+        return res
+    finally:
+        for d in dirs:
+            shutil.rmtree(d, ignore_errors=True)
+
+
 def run(chk):
     V.quiet_threads()
     quick = chk.tier == "quick"
@@ -180,7 +252,7 @@ def run(chk):
         for pi, policy in enumerate(POLICIES[graph]):
             writable = 2 if (pi == 0 and graph == "chain") else 1
             r, cases = V.tlc_cases("Components", dict(Writable=writable), ["Conforms", "PartialSavesNothing", "Minimal", "Emit"],
-                                   overrides=dict(Types="TypesDef", PluginOf="PluginDef", DepsOf="DepsDef", SaveWhen="SaveDef"),
+                                   overrides=dict(Types="TypesDef", PluginOf="PluginDef", DepsOf="DepsDef", SaveWhen="SaveDef", FEConfigs="FEDef"),
                                    mc_defs=mc_defs(graph, policy, writable), timeout=1800, workers=4)
             chk.add_tlc(r, f"Components {graph} policy {policy}")
             if r.violated in ("Conforms", "PartialSavesNothing", "Minimal"):
@@ -200,7 +272,33 @@ def run(chk):
                                   f"{graph} graph, save policies {policy}, request {c}: {b}", dict(graph=graph, policy=policy, writable=writable, case=c))
             if res:
                 chk.sample(dict(graph=graph, policy=policy, request=res[len(res) // 2]["case"]))
-    chk.exhaustive = not quick
+    # several storage frontends with read-only / take_only / exclude filters
+    nfe = 0
+    for graph, pi in (("chain", 1), ("chain", 0), ("multi", 1)):
+        policy = POLICIES[graph][pi]
+        tpl = template_dir(graph)
+        r, cases = V.tlc_cases("Components", dict(Writable=1), ["ConformsFE", "NoWriteToReadonly", "EmitFE"], spec="SpecFE",
+                               overrides=dict(Types="TypesDef", PluginOf="PluginDef", DepsOf="DepsDef", SaveWhen="SaveDef", FEConfigs="FEDef"),
+                               mc_defs=mc_defs(graph, policy, 1), timeout=1800, workers=4)
+        chk.add_tlc(r, f"Components (frontend family) {graph} policy {policy}")
+        if r.violated in ("ConformsFE", "NoWriteToReadonly"):
+            raise V.MachineryError(f"Components.tla: {r.violated} fails in the model itself ({graph}, {policy}): " + r.out[-1500:])
+        V.tlc_must_finish(r, f"Components FE {graph}")
+        rng = __import__("random").Random(chk.seed + 100 + pi)
+        frac = (0.04 if graph == "chain" else 0.006) if quick else (0.5 if graph == "chain" else 0.08)
+        cases = [c for c in cases if rng.random() < frac]
+        res = V.pmap(execute_fe, [(graph, policy, c, tpl) for c in cases])
+        nfe += len(cases)
+        for rr in res:
+            c = rr["case"]
+            chk.case(key=json.dumps([graph, pi, "fe", c], sort_keys=True), nontrivial=True)
+            chk.traces += 1
+            for b in rr["bad"]:
+                chk.violation(f"C11:frontends:{graph}:policy{pi}:{json.dumps(dict(fe=c['fe'], has=c['has'], target=c['target'], save=c['save']), sort_keys=True)}:{b.split(',')[0][:40]}",
+                              f"{graph} graph, save policies {policy}, frontends {c['fe']} holding {c['has']}, target {c['target']}, save={c['save']}: {b}",
+                              dict(graph=graph, policy=policy, fe_case=c))
+    chk.extra["frontend_cases_executed"] = nfe
+    chk.exhaustive = False
     chk.extra["requests_executed"] = total
     chk.assumptions += ["stored subsets are prepared by copying data made under an all-ALWAYS policy (lineage does not depend on save_when)"]
 
@@ -208,6 +306,11 @@ def run(chk):
 def replay(chk, path):
     rp = json.load(open(path))["replay"]
     tpl = template_dir(rp["graph"])
+    if "fe_case" in rp:
+        rr = execute_fe((rp["graph"], rp["policy"], rp["fe_case"], tpl))
+        print(rr["bad"] or "holds")
+        V.cleanup()
+        return 1 if rr["bad"] else 0
     rr = execute((rp["graph"], rp["policy"], rp["writable"], rp["case"], tpl))
     print(rr["bad"] or "holds")
     V.cleanup()
